@@ -64,6 +64,11 @@ pub struct ReteTrace {
 
 pub struct ReteWorld;
 
+/// fact type names: one is a prefix of the next (a key-matching shortcut by prefix would confuse them)
+fn tname(ty: u8) -> &'static str {
+    ["T", "Tx", "Txy"][ty as usize % 3]
+}
+
 fn op_str(op: u8) -> &'static str {
     ["==", "!=", "<", "<=", ">", ">="][op as usize % 6]
 }
@@ -93,7 +98,7 @@ fn cond_holds(r: &RRule, a: i64, b: i64) -> bool {
 }
 
 fn grl_of(i: usize, r: &RRule) -> String {
-    let ty = format!("T{}", r.ty);
+    let ty = tname(r.ty).to_string();
     let cond = r
         .cond
         .iter()
@@ -156,7 +161,7 @@ fn build(t: &ReteTrace, log: &Arc<Mutex<Vec<Firing>>>) -> Result<IncrementalEngi
     }
     for (i, rule) in parsed.into_iter().enumerate() {
         let converted: TypedReteUlRule = GrlReteLoader::verif_convert_rule(rule).map_err(|e| format!("convert: {e}"))?;
-        let ty = format!("T{}", t.rules[i].ty);
+        let ty = tname(t.rules[i].ty).to_string();
         let inner = converted.action.clone();
         let log = log.clone();
         let ty2 = ty.clone();
@@ -221,7 +226,7 @@ fn run_pass(t: &ReteTrace, obs: &mut Obs, primary: bool) -> Result<(), Violation
                 d.set("a", *a);
                 d.set("b", *b);
                 d.set("uid", uid);
-                let h = engine.insert(format!("T{ty}"), d);
+                let h = engine.insert(tname(*ty).to_string(), d);
                 if let Some(mx) = ids.iter().max() {
                     if h.id() <= *mx {
                         return Err(viol("wm.handles-fresh", "WorkingMemory::insert", "handle-not-fresh", format!("insert returned handle {} after {} had been issued", h.id(), mx), step));
@@ -281,6 +286,7 @@ fn run_pass(t: &ReteTrace, obs: &mut Obs, primary: bool) -> Result<(), Violation
             }
             ROp::FireAll => {
                 log.lock().unwrap().clear();
+                let fired_before: BTreeSet<usize> = fired_ever.clone();
                 let budget_n = 4 * 1000 * ((t.rules.len() as u64) * (facts.len() as u64 + 1) + 1);
                 let r = budget::with_budget(budget_n, || engine.fire_all());
                 let fired_list = match r {
@@ -405,9 +411,8 @@ fn run_pass(t: &ReteTrace, obs: &mut Obs, primary: bool) -> Result<(), Violation
                         // on this engine (no activation of it was ever consumed), or the client wrote that
                         // fact after the most recent fire_all (only fire_all consumes activations). Whether
                         // activations consumed before a reset come back by themselves is left open.
-                        let earlier: BTreeSet<usize> = fired_ever.difference(&counts.keys().cloned().collect()).cloned().collect();
                         let fresh_activation = facts.iter().any(|f| f.live && f.ty == t.rules[*ri].ty && cond_holds(&t.rules[*ri], f.a, f.b) && last_fire_all.map_or(true, |l| f.last_write > l));
-                        let never_fired = !earlier.contains(ri);
+                        let never_fired = !fired_before.contains(ri);
                         if !counts.contains_key(ri) && !fired_since_reset.contains(ri) && (never_fired || fresh_activation) {
                             let sig = if never_fired { "satisfied-no-loop-rule-did-not-fire" } else { "satisfied-no-loop-rule-did-not-fire-after-reset" };
                             return Err(viol("fire.complete", "IncrementalEngine::fire_all", sig, format!("no-loop rule R{ri} is satisfied by a live fact, has not fired since the last reset and an activation of it is pending, yet fire_all did not fire it (fired {names:?})"), step));
@@ -456,7 +461,7 @@ fn run_pass(t: &ReteTrace, obs: &mut Obs, primary: bool) -> Result<(), Violation
                 (true, None) => return Err(viol("wm.views", "WorkingMemory::get", "live-fact-not-found-by-handle", format!("live handle {} is not found by get()", ids[k]), step)),
                 (false, Some(_)) => return Err(viol("wm.views", "WorkingMemory::get", "retracted-fact-found-by-handle", format!("retracted handle {} is still found by get()", ids[k]), step)),
                 (true, Some(wf)) => {
-                    if wf.fact_type != format!("T{}", f.ty) || int_of(wf.data.get("uid")) != Some(f.uid) {
+                    if wf.fact_type != tname(f.ty) || int_of(wf.data.get("uid")) != Some(f.uid) {
                         return Err(viol("wm.views", "WorkingMemory::get", "handle-resolves-to-another-fact", format!("handle {} resolves to {:?}", ids[k], wf.data.get("uid")), step));
                     }
                     if f.known && (int_of(wf.data.get("a")), int_of(wf.data.get("b"))) != (Some(f.a), Some(f.b)) {
@@ -474,7 +479,7 @@ fn run_pass(t: &ReteTrace, obs: &mut Obs, primary: bool) -> Result<(), Violation
         }
         for ty in 0..3u8 {
             let want: BTreeSet<u64> = ids.iter().zip(&facts).filter(|(_, f)| f.live && f.ty == ty).map(|(i, _)| *i).collect();
-            let listed = wm.get_by_type(&format!("T{ty}"));
+            let listed = wm.get_by_type(tname(ty));
             let got: BTreeSet<u64> = listed.iter().map(|f| f.handle.id()).collect();
             if got != want || listed.len() != want.len() {
                 let sig = if got.difference(&want).next().is_some() { "retracted-or-foreign-fact-under-type" } else { "live-fact-missing-under-type" };
@@ -498,8 +503,8 @@ impl World for ReteWorld {
     fn info(&self, _prop: &str) -> WorldInfo {
         WorldInfo {
             level: "exploration",
-            rule: "1-4 GRL rules (text -> GRLParser -> GrlReteLoader conversion) over one fact type each (<=3 types), conditions in the \
-                   typed core on 2 integer fields (`A && B || C`), salience from 3 values, no-loop coin, actions none / set a field / \
+            rule: "1-4 GRL rules (text -> GRLParser -> GrlReteLoader conversion) over one fact type each (<=3 types whose names are prefixes of one another: T, Tx, Txy), conditions in the \
+                   typed core on 2 integer fields with literals and values in -2..3 (`A && B || C`), salience from 3 values, no-loop coin, actions none / set a field / \
                    retract($T); histories of <=10 insert / update / retract / fire_all / reset over <=6 facts, each fact with a unique \
                    uid; every history runs under its own hash seed and again under further hash seeds, with the activation clock \
                    advancing or stalled. Half of the histories have only no-op actions and only no-loop rules (fire.complete is judged \
@@ -541,7 +546,7 @@ impl World for ReteWorld {
             .map(|_| {
                 let nconj = 1 + rng.usize(2);
                 let cond = (0..nconj)
-                    .map(|_| (0..1 + rng.usize(2)).map(|_| Atom { field: rng.below(2) as u8, op: rng.below(6) as u8, lit: rng.range(0, 3) }).collect())
+                    .map(|_| (0..1 + rng.usize(2)).map(|_| Atom { field: rng.below(2) as u8, op: rng.below(6) as u8, lit: rng.range(-2, 3) }).collect())
                     .collect();
                 RRule {
                     ty: rng.below(ntypes as u64) as u8,
@@ -553,7 +558,7 @@ impl World for ReteWorld {
                     } else {
                         match rng.usize(4) {
                             0 => RAction::Nothing,
-                            1 | 2 => RAction::SetField(rng.below(2) as u8, rng.range(0, 3)),
+                            1 | 2 => RAction::SetField(rng.below(2) as u8, rng.range(-2, 3)),
                             _ => RAction::Retract,
                         }
                     },
@@ -568,9 +573,9 @@ impl World for ReteWorld {
             ops.push(match w {
                 0 => {
                     inserted += 1;
-                    ROp::Insert { ty: rng.below(ntypes as u64) as u8, a: rng.range(0, 3), b: rng.range(0, 3) }
+                    ROp::Insert { ty: rng.below(ntypes as u64) as u8, a: rng.range(-2, 3), b: rng.range(-2, 3) }
                 }
-                1 => ROp::Update { h: rng.usize(6), a: rng.range(0, 3), b: rng.range(0, 3) },
+                1 => ROp::Update { h: rng.usize(6), a: rng.range(-2, 3), b: rng.range(-2, 3) },
                 2 => ROp::Retract { h: rng.usize(6) },
                 3 => ROp::FireAll,
                 _ => ROp::Reset,
